@@ -121,6 +121,8 @@ func (vc *VC) trExpr(env *SpecEnv, e Expr) Val {
 		return intVal(smtInt(n))
 	case *EStr:
 		return Val{T: smtStr(x.V), Typ: types.Typ[types.String]}
+	case *EParen:
+		return vc.trExpr(env, x.X)
 	case *EIdent:
 		return vc.trIdent(env, x.Name)
 	case *EUn:
@@ -718,6 +720,11 @@ func exprName(e Expr) string {
 		if x.Op == "*" {
 			return "(*" + exprName(x.X) + ")"
 		}
+	case *EParen:
+		if u, ok := x.X.(*EUn); ok && u.Op == "*" {
+			return exprName(u) // (*T).m
+		}
+		return "(" + exprName(x.X) + ")" // (T).m : method with a value receiver
 	}
 	return e.String()
 }
